@@ -37,6 +37,7 @@ MIN_NONTRIVIAL_FRACTION = 0.3
 RULE += " Added after the seeded rounds: " + 'A case may reach its electorate through a history (`hist`: add_agent / remove_agent / set_agent_weight / set_strategy with earlier votes and statistics calls) and must then decide like a fresh colony with the same electorate; S9 re-seats the voters in another order (exact-rational guard against float near-ties); stub exceptions are drawn from 16 exception types.'
 RULE += " Voters whose PERMIT reply cannot be converted into a ballot (confidence 'high' / None) are failed voters; 1/25 of the histories cast 1001 earlier votes (bound of the vote history)."
 RULE += ' S10 mirror image: under the default / >= 1/2 thresholds of the non-count strategies a ballot and its mirror (every PERMIT and BLOCK exchanged) cannot both be PERMIT (decisions within 1e-9 of the threshold left alone).'
+RULE += " An EmergencyQuorum switched to an ordinary strategy with set_strategy() is held to that strategy's criterion (generated 1/8 of the non-emergency cases; enumerated for every two-way ballot of 5..9 voters x 6 strategies)."
 
 # BADCONF / BADCONF_NONE: the voter answers PERMIT but its reply cannot be converted into a ballot (confidence "high" / None): a failed voter
 KINDS = ["PERMIT", "EXECUTE", "BLOCK", "UNKNOWN", "DEFER", "FAILURE", "RAISE", "BADCONF", "BADCONF_NONE"]
@@ -72,7 +73,11 @@ def _case(draw):
         hist = {"initial": draw(st.integers(0, n)), "pre_vote": draw(st.booleans()), "pre_stats": draw(st.booleans()), "extra": draw(st.booleans()),
                 "weights_late": draw(st.booleans()), "detour": None if emergency else draw(st.sampled_from([None, None, 0, 2, 6])),
                 "pre_votes": draw(st.sampled_from([1] * 24 + [1001]))}
-    return {"emergency": emergency, "strategy": strat, "threshold": thr, "min_voters": mv, "voters": voters, "hist": hist, "exc": draw(st.integers(0, 11))}
+    from_em = False
+    if not emergency and hist is None and draw(st.integers(0, 7)) == 0:
+        from_em, mv = True, 1          # EmergencyQuorum fixes min_voters at 1
+    return {"emergency": emergency, "strategy": strat, "threshold": thr, "min_voters": mv, "voters": voters, "hist": hist, "exc": draw(st.integers(0, 11)),
+            "from_emergency": from_em}
 
 
 def strategy(tier):
@@ -114,6 +119,8 @@ def _two_way_ballots():
                 for thr in (None, 0.5, 0.666, 0.75):
                     yield {"emergency": False, "strategy": s, "threshold": thr, "min_voters": 1, "voters": [list(v) for v in voters]}
             yield {"emergency": True, "strategy": 6, "threshold": 0.3, "min_voters": 1, "voters": [list(v) for v in voters]}
+            for s in range(6):
+                yield {"emergency": False, "from_emergency": True, "strategy": s, "threshold": None, "min_voters": 1, "voters": [list(v) for v in voters]}
 
 
 class _Stub:
@@ -146,6 +153,10 @@ def _run(case, voters, hist=None):
     detour = hist.get("detour")
     if case["emergency"]:
         q = EmergencyQuorum(n_agents=0, budget=budget, emergency_threshold=case["threshold"], silent=True)
+    elif case.get("from_emergency"):
+        # an emergency quorum switched to an ordinary strategy: from then on that strategy's criterion (and the threshold given with it) applies
+        q = EmergencyQuorum(n_agents=0, budget=budget, silent=True)
+        q.set_strategy(final_strat, case["threshold"])
     else:
         first = getattr(VotingStrategy, STRATS[detour]) if detour is not None else final_strat
         q = QuorumSensing(n_agents=0, budget=budget, strategy=first, threshold=None if detour is not None else case["threshold"],
